@@ -1226,6 +1226,7 @@ class RepositoryPackCollection:
     def _remove_resumed_pack_indices(self):
         for resumed_pack in self._resumed_packs:
             self._remove_pack_indices(resumed_pack)
+            self._packs_by_name.pop(resumed_pack.name, None)
         del self._resumed_packs[:]
 
     def _check_new_inventories(self):
